@@ -23,7 +23,7 @@ import hydrolib
 import vlib
 
 CBOUND = 64      # |delta| <= 64 eps scale: 8x the worst case of 7 additions per cell (DESIGN.md 3.3)
-LBOUND = 4096
+LBOUND = 256     # 30 contributions per cell (6 faces x 5 sweeps) x 8
 
 
 def run(c):
